@@ -144,12 +144,49 @@ class C01(SimSpec):
         scen["user"]["try_submit"] = rng.choice([0, 1, 2, 3])
         return scen
 
+    def tasks(self, tier, seed):
+        out = SimSpec.tasks(self, tier, seed)
+        # the fork server is part of what is checked, not of what is trusted: a few scenarios are executed a second time with
+        # fresh interpreters (no fork server, no inner monitors); the boundary traces must be identical
+        n = {"quick": 3, "thorough": 16}[tier]
+        for k in range(n):
+            for fresh in (False, True):
+                t = copy.deepcopy(out[k * 7 % len(out)])
+                sc = t["args"]["scen"]
+                sc["policy"] = {"kind": "det"}  # rng-free schedule: import-time file probing of a fresh interpreter must not matter
+                sc["user"] = {}
+                sc["no_zygote"] = fresh
+                sc["wall_limit"] = 400
+                t["args"]["twin"] = k
+                t["args"]["fresh"] = fresh
+                t["timeout"] = 500
+                out.append(t)
+        return out
+
     def nontrivial(self, t, r):
-        return (r.get("sbatches") or 0) >= 2 and len(r.get("round_hosts") or []) >= 2
+        return (r.get("sbatches") or 0) >= 2 and len(r.get("round_hosts") or []) >= 2 and "twin" not in t["args"]
+
+    def counters(self, tasks, results):
+        c = self.base_counters(tasks, results)
+        pairs = same = 0
+        tw = {}
+        for t, r in zip(tasks, results):
+            if "twin" in t["args"] and not r.get("error"):
+                tw.setdefault(t["args"]["twin"], {})[t["args"]["fresh"]] = r
+        for k, d in tw.items():
+            if len(d) == 2:
+                pairs += 1
+                a_, b_ = d[False], d[True]
+                same += 1 if (a_.get("sig"), a_.get("sbatches"), a_.get("launches"), a_.get("final_classes")) == (b_.get("sig"), b_.get("sbatches"), b_.get("launches"), b_.get("final_classes")) else 0
+        c["fork_server_vs_fresh_interpreter_pairs"] = pairs
+        c["pairs_with_identical_boundary_trace"] = same
+        return c
 
     def floors(self, cov):
         if cov.get("sbatch_calls_checked", 0) < 50:
             return "fewer than 50 sbatch calls observed"
+        if cov.get("fork_server_vs_fresh_interpreter_pairs", 0) and cov.get("pairs_with_identical_boundary_trace") != cov.get("fork_server_vs_fresh_interpreter_pairs"):
+            return "fork server and fresh interpreters produced different boundary traces for the same scenario and seed"
         return SimSpec.floors(self, cov)
 
 
